@@ -52,6 +52,20 @@ def run(F, tier):
     if payload:
         rxv = re.compile(r"^<(%s) as traits::SwiftField>::parse$" % "|".join(re.escape(t) for t in sorted(payload)))
         accept.u6(rep, F, ("option-variants", rxv, 60))
+        # ... and the shared validators those parsers call decide with them (a BIC test that lets a name line
+        # through turns option-less party fields into option A)
+        from .facts import walk as _walk, callee as _callee
+        utils = set()
+        for b_ in F.bodies:
+            if "body" in b_ and not b_.get("exp") and rxv.search(b_.get("path") or ""):
+                for n_ in _walk(b_["body"]):
+                    if n_.get("k") in ("call", "mcall"):
+                        c_ = _callee(n_)
+                        if c_.startswith(("fields::swift_utils::", "fields::field_utils::")):
+                            utils.add(c_)
+        if utils:
+            rxu = re.compile(r"^(%s)$" % "|".join(re.escape(u) for u in sorted(utils)))
+            accept.u6(rep, F, ("option-validators", rxu, 5))
     # message-level routing of option letters done by hand (a helper that looks at the next tag itself)
     mh = ("message-helpers", re.compile(r"^messages::\w+::\w+::parse_(?!from_block4)"), 1)
     accept.u6(rep, F, mh)
